@@ -283,3 +283,41 @@ Proof.
   exists [10; 20], 12, 10, 20. split; [cbn; repeat constructor; lia|]. split; [left; reflexivity|].
   split; [vm_compute; reflexivity|vm_compute; reflexivity].
 Qed.
+
+(** ** round 8: two routes to the same index; next/prev round trips *)
+Lemma run_app rnd L a : forall b s, run rnd L s (a ++ b) = run rnd L (run rnd L s a) b.
+Proof. induction a as [|o a IH]; intros b s; cbn [app run]; auto. Qed.
+
+(** two routes that end at the same index show the same thing *)
+Lemma nav_same_index_same_obs rnd L : lsets L <> [] -> uniform L -> forall ops1 ops2,
+  idx (run rnd L (open L) ops1) = idx (run rnd L (open L) ops2) ->
+  observe (run rnd L (open L) ops1) = observe (run rnd L (open L) ops2).
+Proof.
+  intros HL HU ops1 ops2 Hi.
+  pose proof (nav_fresh rnd L HL HU ops1) as H1. cbn zeta in H1. destruct H1 as (f1 & F1 & O1).
+  pose proof (nav_fresh rnd L HL HU ops2) as H2. cbn zeta in H2. destruct H2 as (f2 & F2 & O2).
+  rewrite Hi in F1. rewrite F1 in F2. inversion F2; subst f2. rewrite O1, O2. reflexivity.
+Qed.
+
+(** next then prev (when next can move), prev then next (when prev can move): back to what was shown *)
+Lemma next_prev_round_trip rnd L : lsets L <> [] -> uniform L -> forall ops,
+  let s := run rnd L (open L) ops in
+  (idx s < nsets L - 1 -> observe (run rnd L s [Next; Prev]) = observe s) /\
+  (0 < idx s -> observe (run rnd L s [Prev; Next]) = observe s).
+Proof.
+  intros HL HU ops s.
+  pose proof (nav_index_time_step rnd L HL ops) as A. destruct A as [Hr _]. fold s in Hr.
+  split; intro Hlt.
+  - unfold s. rewrite <- run_app. apply nav_same_index_same_obs; auto. rewrite run_app. fold s.
+    cbn [run].
+    destruct (next_spec rnd L s Hr) as (s1 & b1 & E1 & Hb1 & Hi1 & _ & Hr1). rewrite E1. cbn [fst].
+    destruct (prev_spec rnd L s1 Hr1) as (s2 & b2 & E2 & Hb2 & Hi2 & _ & _). rewrite E2. cbn [fst].
+    assert (B1 : b1 = true) by (rewrite Hb1; apply Z.ltb_lt; lia). rewrite B1 in Hi1.
+    assert (B2 : b2 = true) by (rewrite Hb2; apply Z.ltb_lt; lia). rewrite B2 in Hi2. lia.
+  - unfold s. rewrite <- run_app. apply nav_same_index_same_obs; auto. rewrite run_app. fold s.
+    cbn [run].
+    destruct (prev_spec rnd L s Hr) as (s1 & b1 & E1 & Hb1 & Hi1 & _ & Hr1). rewrite E1. cbn [fst].
+    destruct (next_spec rnd L s1 Hr1) as (s2 & b2 & E2 & Hb2 & Hi2 & _ & _). rewrite E2. cbn [fst].
+    assert (B1 : b1 = true) by (rewrite Hb1; apply Z.ltb_lt; lia). rewrite B1 in Hi1.
+    assert (B2 : b2 = true) by (rewrite Hb2; apply Z.ltb_lt; lia). rewrite B2 in Hi2. lia.
+Qed.
